@@ -20,7 +20,7 @@ BUDGET = {"quick": 250000, "thorough": 5000000}
 RULE = (
     "program runs: 0..4 entries, each one of {entered async CM, entered sync CM, pushed async CM, pushed sync "
     "CM, pushed async exit callable, pushed sync exit callable, callback with args (sync/async)} x exit "
-    "behaviour {falsy, truthy, raise new, raise new while handling}, entering may fail, block ends normally or "
+    "behaviour {falsy, truthy, raise new, raise new while handling, raise KeyboardInterrupt / SystemExit, raise the block's own exception object again}, entering may fail, block ends normally or "
     "raises, exits suspend 0..2x; oracle: exit invocation sequence with the exception each received (by tag) and "
     "final outcome equal to the literal nested async-with/with statement. history runs: seeded sequences over "
     "{register, aclose, pop_all, leave block, aclose again, close the popped stack}; oracle: every registered "
@@ -38,7 +38,7 @@ ASSUMPTIONS = [
 ]
 PROBES = ("suppress_then_raise", "replacement_chain", "enter_failed", "callback_cannot_suppress", "aclose_midway",
           "pop_all", "unwind_again", "block_raises", "sync_cm", "pushed_callable", "ambient_exception", "falsy_exception",
-          "stack_reused_after_unwind", "pop_all_inside_aenter", "pop_all_inside_an_exit", "exit_raises_stopiteration", "dual_protocol_manager")
+          "stack_reused_after_unwind", "exit_raises_keyboardinterrupt_or_systemexit", "exit_raises_the_blocks_exception_object_again", "pop_all_inside_aenter", "pop_all_inside_an_exit", "exit_raises_stopiteration", "dual_protocol_manager")
 
 KINDS = ("async_cm", "sync_cm", "push_async_cm", "push_sync_cm", "push_async_fn", "push_sync_fn",
          "callback_sync", "callback_async")
@@ -48,6 +48,18 @@ BEHAVE = ("falsy", "truthy", "raise_new", "raise_handling")
 class Tagged(Exception):
     def __init__(self, tag):
         Exception.__init__(self, repr(tag))
+        self.tag = tag
+
+
+class TaggedInterrupt(KeyboardInterrupt):
+    def __init__(self, tag):
+        KeyboardInterrupt.__init__(self, repr(tag))
+        self.tag = tag
+
+
+class TaggedSystemExit(SystemExit):
+    def __init__(self, tag):
+        SystemExit.__init__(self, repr(tag))
         self.tag = tag
 
 
@@ -73,7 +85,7 @@ class FalsyTagged(Tagged):
 SYNC_KINDS = ("sync_cm", "push_sync_cm", "push_sync_fn")  # callbacks run inside a wrapper coroutine of the stack
 
 
-def model_unwind(entries, exc):
+def model_unwind(entries, exc, block_exc=None):
     """
     The unwinding rule of the statement, on tags: reverse order; exits see the exception in flight, callbacks
     nothing; a truthy exit suppresses, a raising one replaces.  Cross-checked against the literal nested
@@ -92,8 +104,11 @@ def model_unwind(entries, exc):
         if b == "truthy":
             if not is_cb and exc is not None:
                 exc = None
-        elif b == "raise_new" or (b == "raise_handling" and recv is not None):
+        elif b == "raise_new" or b == "raise_interrupt" or (b == "raise_handling" and recv is not None):
             exc = ("exit", e.name)
+        elif b == "reraise_block":
+            if block_exc is not None:
+                exc = block_exc
         elif b == "raise_stop":
             # a StopIteration raised by a *synchronous* exit is an exception like any other for the exits still to
             # come; raised inside a coroutine (an async exit) the interpreter turns it into a RuntimeError at once
@@ -165,6 +180,7 @@ class Env:
         self.pop_in_enter = None  # name of the entry whose __aenter__ calls pop_all() on the stack entering it
         self.popped_in_enter = []
         self.registering_stack = None
+        self.block_exc = None
 
     async def pause(self, n):
         for _ in range(n):
@@ -182,6 +198,14 @@ class Env:
             raise self.exc_type(("exit", e.name))
         if b == "raise_stop":
             raise TaggedStop(("stop", e.name))
+        if b == "raise_interrupt":
+            # a request to shut down raised by an exit: an exception like any other for the exits still to come
+            raise (TaggedInterrupt, TaggedSystemExit)[e.susp % 2](("exit", e.name))
+        if b == "reraise_block":
+            # the exit raises the very object the block raised (it kept it), whatever happened to it in between
+            if self.block_exc is not None:
+                raise self.block_exc
+            return None
         if b == "pop_all_inside":
             self.moved.append(self.current_stack.pop_all())
         if b == "push_inside" and self.count[e.name] == 1:
@@ -343,12 +367,13 @@ async def run_program_stack(entries, env, block_raises, res, ambient=False):
                 await register(stack, e, obj)
             env.log.append(("body",))
             if block_raises:
-                raise env.block_type("block")
+                env.block_exc = env.block_type("block")
+                raise env.block_exc
 
     try:
         await in_ambient(ambient, go)
         res.append(("suppressed",) if block_raises else ("normal",))
-    except (Tagged, GeneratorExit) as err:
+    except (Tagged, GeneratorExit, TaggedInterrupt, TaggedSystemExit) as err:
         res.append(("raised", err.tag))
     except Exception as err:
         res.append(("raised", type(err).__name__))
@@ -360,13 +385,14 @@ async def run_program_nested(entries, env, block_raises, res, ambient=False):
     async def body():
         env.log.append(("body",))
         if block_raises:
-            raise env.block_type("block")
+            env.block_exc = env.block_type("block")
+            raise env.block_exc
 
     try:
         await in_ambient(ambient, lambda: nested(entries, objs, 0, body))
         # reaching here: completed normally or an exception was suppressed on the way
         res.append(("completed",))
-    except (Tagged, GeneratorExit) as err:
+    except (Tagged, GeneratorExit, TaggedInterrupt, TaggedSystemExit) as err:
         res.append(("raised", err.tag))
     except Exception as err:
         res.append(("raised", type(err).__name__))
@@ -387,6 +413,16 @@ def gen(ch):
                 e.kind = "push_async_fn" if prev.kind == "push_async_fn" else "push_async_cm"
                 e.same_as_previous = True
     sc.block_raises = ch.chance(1, 2)
+    if sc.mode == "program" and n:
+        if ch.chance(1, 6):
+            # one exit raises KeyboardInterrupt / SystemExit (tagged subclasses)
+            sc.entries[ch.draw(n)].behave = "raise_interrupt"
+        if sc.block_raises and ch.chance(1, 5):
+            # one exit raises the very exception object of the block again - also after a later exit suppressed it
+            sc.entries[ch.draw(n)].behave = "reraise_block"
+        for i in range(1, n):
+            if sc.entries[i].same_as_previous:  # one object, one behaviour
+                sc.entries[i].behave = sc.entries[i - 1].behave
     sc.block_genexit = ch.chance(1, 8)  # the block ends with exactly GeneratorExit (tagged) instead of an Exception
     sc.ambient = ch.chance(1, 3)   # everything happens while the caller handles an unrelated exception
     sc.falsy_exc = ch.chance(1, 4)  # all exceptions involved test false
@@ -575,7 +611,7 @@ def execute(st, ctx):
                 # the unwinding model used for histories must agree with the literal statements (else: harness bug)
                 failing = next((i for i, e in enumerate(sc.entries) if e.enter_fails), None)
                 if failing is None:
-                    mlog, mexc, _ = model_unwind(sc.entries, "block" if sc.block_raises else None)
+                    mlog, mexc, _ = model_unwind(sc.entries, "block" if sc.block_raises else None, "block" if sc.block_raises else None)
                 else:
                     mlog, mexc, _ = model_unwind(sc.entries[:failing], ("enter", sc.entries[failing].name))
                 if mlog != [x for x in env_r.log if x[0] == "exit"] or (("raised", mexc) if mexc is not None else ("completed",)) != r:
@@ -688,6 +724,10 @@ def execute(st, ctx):
         out.probes["exit_raises_stopiteration"] = 1
     if any(e.dual for e in sc.entries):
         out.probes["dual_protocol_manager"] = 1
+    if any(b == "raise_interrupt" for b in behaves) and any(x[0] == "exit" for x in env_a.log):
+        out.probes["exit_raises_keyboardinterrupt_or_systemexit"] = 1
+    if any(b == "reraise_block" for b in behaves) and sc.block_raises:
+        out.probes["exit_raises_the_blocks_exception_object_again"] = 1
     if sc.falsy_exc and (sc.block_raises or out.faults.get("exit_raises")):
         out.probes["falsy_exception"] = 1
     if sc.mode == "history" and any(op == "aclose" and pos < len(sc.entries) for pos, op in sc.steps):
